@@ -177,6 +177,31 @@ def run_straight(f, env, calls, stop, maxsteps=400, returns=False, start=None, s
                     env["__mem__"].store(pp(sk(lhs["a"][0])), ev(lhs["a"][1], env, calls), _wrap(ev(x["a"][1], env, calls), lhs.get("t")))
                 except Unknown:
                     env["__mem__"].store(pp(sk(lhs["a"][0])), None, None)
+            elif k == "Bin" and x["op"] in ("%=", "<<=", ">>=", "&=", "|=", "^=") and (sk(x["a"][0]).get("t") or {}).get("k") in ("int", "enum", "bool"):
+                lk = pp(sk(x["a"][0]))
+                lt = sk(x["a"][0]).get("t")
+                try:
+                    ct = x.get("ct") or lt
+                    if lk not in env:
+                        raise Unknown(lk)
+                    cur = _wrap(env[lk], ct)
+                    r = ev(x["a"][1], env, calls)
+                    o = x["op"][:-1]
+                    if o in ("<<", ">>"):
+                        if r < 0 or r >= (ct.get("bits") or 64):
+                            raise Unknown("shift count")
+                        v = (cur << r) if o == "<<" else (cur >> r)
+                    elif o == "%":
+                        r = _wrap(r, ct)
+                        if r == 0:
+                            raise Unknown("div0")
+                        v = abs(cur) % abs(r) * (1 if cur >= 0 else -1)
+                    else:
+                        r = _wrap(r, ct)
+                        v = {"&": cur & r, "|": cur | r, "^": cur ^ r}[o]
+                    env[lk] = _wrap(_wrap(v, ct), lt)
+                except Unknown:
+                    env.pop(lk, None)
             elif k == "Bin" and x["op"] in ("=", "+=", "-=", "*=", "/=") and (sk(x["a"][0]).get("t") or {}).get("k") in ("int", "enum", "bool"):
                 lk = pp(sk(x["a"][0]))
                 lt = sk(x["a"][0]).get("t")
@@ -208,6 +233,9 @@ def run_straight(f, env, calls, stop, maxsteps=400, returns=False, start=None, s
                 lk = pp(sk(x["a"][0]))
                 if lk in env:
                     env[lk] = _wrap(env[lk] + (1 if "++" in x["op"] else -1), sk(x["a"][0]).get("t"))
+            elif k == "Bin" and x["op"].endswith("=") and x["op"] not in ("==", "!=", "<=", ">="):
+                # an assignment form not interpreted above: the target is unknown from here on
+                env.pop(pp(sk(x["a"][0])), None)
         succs = b.succs
         if b.noreturn:
             return None
